@@ -19,9 +19,9 @@ def extension : Lang → Str
   | .typescript => s%"ts" | .python => s%"py"
 
 /-- `output_file_name` -/
-def outputFileName (l : Lang) (crate : Str) : Str :=
+def outputFileName (U : UnicodeOps) (l : Lang) (crate : Str) : Str :=
   match l with
-  | .swift => Rename.toPascal crate ++ s%"." ++ extension l
+  | .swift => Rename.toPascal U crate ++ s%"." ++ extension l
   | _ => crate ++ s%"." ++ extension l
 
 /-- `write_multiple_files`: the (file name, crate) pairs written, in map order -/
